@@ -1,6 +1,7 @@
 package main
 
 import (
+	"context"
 	"encoding/json"
 	"flag"
 	"fmt"
@@ -10,6 +11,7 @@ import (
 	"regexp"
 	"sort"
 	"strings"
+	"sync"
 	"time"
 
 	"golang.org/x/tools/go/ssa"
@@ -176,6 +178,12 @@ func cmdProp(args []string) {
 		e.Discharge(lemObs, sd, quickS, fullS*2, *workers)
 		all = append(all, lemObs...)
 	}
+	// thorough tier: every discharged obligation is put to a second solver (agreement check)
+	agreeConfirmed, agreeUnknown := 0, 0
+	var disagreements []string
+	if *tier == "thorough" {
+		agreeConfirmed, agreeUnknown, disagreements = e.crossCheck(all, filepath.Join(scratch, "agree"), *workers)
+	}
 
 	// aggregate
 	type agg struct {
@@ -292,6 +300,10 @@ func cmdProp(args []string) {
 		}
 		fmt.Printf("VIOLATION property=%s replay=%s obligation=%s result=%s instances=%d%s\n", *id, rp, ob.Name, ob.Result, len(unknownFails), suffix)
 	}
+	for _, d := range disagreements {
+		// two solvers disagree on an obligation: nothing is claimed for it
+		engineErrs = append(engineErrs, "solvers disagree on "+d)
+	}
 	for _, er := range engineErrs {
 		violations++
 		rp := writeReplay(replayDir, "engine_error", map[string]interface{}{"property": *id, "error": er, "note": "an obligation could not be generated for the current source; it is undecided"})
@@ -348,6 +360,9 @@ func cmdProp(args []string) {
 		"obligations":               nOb - nKnown,
 		"discharged":                nDis,
 		"known_finding_obligations": knownObs,
+		"second_solver_confirmed":   agreeConfirmed,
+		"second_solver_undecided":   agreeUnknown,
+		"solver_disagreements":      disagreements,
 		"distinct_obligation_names": len(names),
 		"checker_cmd":               fmt.Sprintf("/verif/check %s --tier %s  (goverif: go/ssa weakest-precondition generator; z3-new 5.1.0, z3 4.8.12, cvc5 1.0 portfolio)", *id, *tier),
 		"trusted_base":              tb,
@@ -573,7 +588,8 @@ type boundedRun struct {
 }
 
 // runBounded executes /verif/bounded/<id>/*.go (in-package tests injected with -overlay). Headers:
-//   // bounded-pkg: memmetrics      // bounded-func: <function standing in for>      // bounded-bound: <stated bound>
+//
+//	// bounded-pkg: memmetrics      // bounded-func: <function standing in for>      // bounded-bound: <stated bound>
 func (e *Engine) runBounded(id, repo, verif, tier string) []boundedRun {
 	files, _ := filepath.Glob(filepath.Join(verif, "bounded", id, "*.go"))
 	var out []boundedRun
@@ -645,4 +661,49 @@ func c09Roots(e *Engine) []string {
 	}
 	sort.Strings(out)
 	return out
+}
+
+// crossCheck re-runs every obligation that one solver discharged (unsat) on a different solver with a short budget.
+// A second "unsat" confirms, "unknown"/"timeout" leaves the first answer standing, "sat" is a disagreement.
+func (e *Engine) crossCheck(obs []*Obligation, dir string, workers int) (confirmed, undecided int, disagreements []string) {
+	os.MkdirAll(dir, 0o755)
+	var mu sync.Mutex
+	var wg sync.WaitGroup
+	sem := make(chan struct{}, workers)
+	for i, ob := range obs {
+		if ob.Cover || ob.Static || ob.Result != "unsat" || ob.Script == "" {
+			continue
+		}
+		var second solverSpec
+		switch {
+		case ob.Strings && ob.Solver == "cvc5":
+			second = solvers[0]
+		case ob.Strings:
+			second = solvers[2]
+		case ob.Solver == "z3-new":
+			second = solvers[2] // cvc5: an independent code base
+		default:
+			second = solvers[0]
+		}
+		wg.Add(1)
+		sem <- struct{}{}
+		go func(i int, ob *Obligation, sp solverSpec) {
+			defer wg.Done()
+			defer func() { <-sem }()
+			r := runSolver(context.Background(), sp, dir, fmt.Sprintf("x%05d", i), ob.Script, 5, ob.Strings, nil)
+			mu.Lock()
+			defer mu.Unlock()
+			switch r.status {
+			case "unsat":
+				confirmed++
+			case "sat":
+				disagreements = append(disagreements, ob.Name+" ("+ob.Solver+": unsat, "+sp.name+": sat)")
+			default:
+				undecided++
+			}
+		}(i, ob, second)
+	}
+	wg.Wait()
+	sort.Strings(disagreements)
+	return
 }
